@@ -6,6 +6,7 @@ JSON parser
 package anytype
 
 import (
+	"encoding/json"
 	"fmt"
 	"math/bits"
 	"os"
@@ -59,6 +60,25 @@ func parseField(field string, line int) (any, error) {
 		return boolean, nil
 	}
 	return nil, fmt.Errorf("not a valid JSON - invalid value '%s' on line %d", field, line)
+}
+
+/*
+Decodes the content of a JSON string literal (escape sequences included).
+All JSON escapes are supported, including \/ and surrogate pairs (\ud83d\ude00), which are unknown to strconv.Unquote.
+The Go escapes accepted by the previous versions (\x01, \a, \v, \U000e0001) are still decoded.
+Parameters:
+  - str - content of the literal, without the enclosing quotes.
+
+Returns:
+  - decoded string (empty if the literal is not valid).
+*/
+func unquote(str string) string {
+	var result string
+	if json.Unmarshal([]byte(`"`+str+`"`), &result) == nil {
+		return result
+	}
+	result, _ = strconv.Unquote(`"` + str + `"`)
+	return result
 }
 
 /*
@@ -168,7 +188,7 @@ func parseList(json string, line *int) (List, int, error) {
 				continue
 			}
 			if char == '"' {
-				str, _ := strconv.Unquote(fmt.Sprintf(`"%s"`, val.String()))
+				str := unquote(val.String())
 				list.Add(str)
 				val.Reset()
 				state = stateValAfterString
@@ -279,7 +299,7 @@ func parseObject(json string, line *int) (Object, int, error) {
 			if char != ':' {
 				return nil, 0, fmt.Errorf("not a valid JSON - expecting ':', got '%s' on line %d", string(char), *line)
 			}
-			str, _ := strconv.Unquote(fmt.Sprintf(`"%s"`, key.String()))
+			str := unquote(key.String())
 			key.Reset()
 			key.WriteString(str)
 			val.Reset()
@@ -378,7 +398,7 @@ func parseObject(json string, line *int) (Object, int, error) {
 				continue
 			}
 			if char == '"' {
-				str, _ := strconv.Unquote(fmt.Sprintf(`"%s"`, val.String()))
+				str := unquote(val.String())
 				object.Set(key.String(), str)
 				state = stateValAfterString
 				continue
